@@ -298,6 +298,30 @@ func (f *flowNode) bootErr(startID int64) error {
 	return nil
 }
 
+// normaliseMemPool: Node.load puts the stored transactions of the unconfirmed set back into the mempool in
+// the iteration order of a Go map.  That order only decides the order of the spenders in the outpoint index, i.e.
+// the order of the notifications within a later step.  So that runs are reproducible the harness re-enters them in
+// ascending txid order (what load could have done) through the real MemPool methods.
+func (f *flowNode) normaliseMemPool() {
+	mp := f.node.VerifMemPool()
+	var ids []int64
+	for _, e := range f.node.VerifTxs().VerifUnconfirmed() {
+		h := e.TxID
+		if mp.TransactionExists(&h) {
+			ids = append(ids, f.tu.ID(&h))
+		}
+	}
+	sort.Slice(ids, func(i, j int) bool { return ids[i] < ids[j] })
+	for _, id := range ids {
+		tx, ok := f.tu.txs[id]
+		if !ok {
+			continue
+		}
+		mp.RemoveTransaction(*tx.TxHash())
+		mp.AddTransaction(f.ctx, tx, false)
+	}
+}
+
 func (f *flowNode) encState(s client.TxState) []int64 {
 	proof := int64(-1)
 	if s.MerkleProof != nil {
@@ -693,6 +717,7 @@ func runTxFlow(c *Case) ([]Obs, any) {
 					return Obs{ERR}
 				}
 				f.boot(0)
+				f.normaliseMemPool()
 				return Obs{OK}
 			case "gettx":
 				tx, err := f.node.GetTx(ctx, tu.HashOf(op.Int(0)))
